@@ -16,6 +16,30 @@ def _stores_results(st, nodep):
     return None
 
 
+def _records_subtree(ix, uv, v, stmts, nodep):
+    """the statements call a method of the visitor that stores results[<its node>] and walks <its node>.children calling itself (or loop over
+    the children here and do so)"""
+    for st in stmts:
+        for c in ast.walk(st):
+            if isinstance(c, ast.Call) and isinstance(c.func, ast.Attribute) and isinstance(c.func.value, ast.Name) and c.func.value.id == 'self' \
+                    and c.args and isinstance(c.args[0], ast.Name) and c.args[0].id == nodep:
+                g = ix.resolve_method(uv, c.func.attr)
+                if g is None or len(g.node.args.args) < 2:
+                    continue
+                gp = g.node.args.args[1].arg
+                stores = any(_stores_results(x, gp) for x in ast.walk(g.node) if isinstance(x, ast.Assign))
+                recurses = False
+                for lp in ast.walk(g.node):
+                    if isinstance(lp, ast.For) and ast.unparse(lp.iter).replace(' ', '') == '%s.children' % gp and isinstance(lp.target, ast.Name):
+                        for cc in ast.walk(lp):
+                            if isinstance(cc, ast.Call) and isinstance(cc.func, ast.Attribute) and cc.func.attr == g.node.name and cc.args \
+                                    and isinstance(cc.args[0], ast.Name) and cc.args[0].id == lp.target.id:
+                                recurses = True
+                if stores and recurses:
+                    return True
+    return False
+
+
 def returns_are_stored(rep, f, rule, slot):
     """on every path to a ``return X`` the statement results[node] = X has been executed (dominance)"""
     nodep = f.node.args.args[1].arg
@@ -78,8 +102,16 @@ def check_store(ix, rep, rule='R-STORE'):
                 for st in _step._normalise_visit(v.node).body:
                     if isinstance(st, ast.If) and any(isinstance(s, ast.Return) for s in st.body):
                         stored = any(_stores_results(s, nodep) for s in st.body)
-                        if stored:
+                        if stored or _records_subtree(ix, uv, v, st.body, nodep):
                             rep.ok(rule, v.module.rel, v.qual, '%s:memo-hit' % mon.kind, 'a memo hit records results[node] for the node that shares the operator', st.lineno)
+                            # ... and for everything below it: the operands of the second occurrence are not visited, and the name table may
+                            # point at one of them (phi_name_to_node_dict[v] is the Variable node parsed last)
+                            if _records_subtree(ix, uv, v, st.body, nodep):
+                                rep.ok(rule, v.module.rel, v.qual, '%s:memo-hit:subtree' % mon.kind, 'the nodes below a memo hit are given their results too', st.lineno)
+                            else:
+                                rep.fail(rule, v.module.rel, v.qual, '%s:memo-hit:subtree' % mon.kind, 'a memo hit records results[node] for the node itself only: the operands of the second '
+                                         'occurrence are never visited and get no entry -- `p = (a >= 2); out = (a >= 2) and p`: the name `a` is bound to the Variable node parsed last, '
+                                         'which lies below the memo hit, and get_value(\'a\') raises KeyError', st.lineno)
                         else:
                             rep.fail(rule, v.module.rel, v.qual, '%s:memo-hit' % mon.kind, 'a memo hit returns without recording results[node]: '
                                      'get_value() of the second occurrence has no entry', st.lineno)
